@@ -69,7 +69,7 @@ def fixed_targets():
     T.append(dict(ll(10, 80, 20, 85, 20, 10, "high_lat"), force={"radius": 50000.0, "points": [(9.0, 84.75)]}))   # design-round witness
     # the two witnesses of Theorem C03_snapshot_reduce_refuted (2 x 2 grid, pixel centres 12.5/17.5E, 83.75/81.25N)
     T.append(dict(ll(10, 80, 20, 85, 2, 2, "high_lat"), force={"radius": 50000.0, "points": [(11.0, 83.75)]}))
-    T.append(dict(ll(10, 80, 20, 85, 2, 2, "high_lat"), force={"radius": 2500000.0, "points": [(12.5, 58.7)]}))
+    T.append(dict(ll(10, 80, 20, 85, 2, 2, "high_lat"), force={"radius": 2500000.0, "points": [(12.5, 58.7)], "only": True}))
     T.append(ll(-150, -86, -120, -80, 10, 6, "high_lat"))
     T.append(ll(100, 60, 130, 75, 12, 10, "off_meridian"))
     T.append(ll(-2.5, 40, 2.5, 45, 5, 6, "lon_zero"))                      # a pixel column exactly on lon 0.0
@@ -270,16 +270,20 @@ def configs_for(ctx, rows, mp_ok, small):
             if (red, s) != (False, 1):
                 cfgs.append({"reduce": red, "segments": s, "nprocs": 1, "fresh_all": s in (2, None)})
     if mp_ok and small:
-        for red in (True, False):
-            for s in (1, 2, rows + 3):
-                cfgs.append({"reduce": red, "segments": s, "nprocs": 2, "fresh_all": False})
+        if ctx.thorough:
+            for red in (True, False):
+                for s in (1, 2, rows + 3):
+                    cfgs.append({"reduce": red, "segments": s, "nprocs": 2, "fresh_all": False})
+        else:
+            cfgs.append({"reduce": False, "segments": 1, "nprocs": 2, "fresh_all": False})
+            cfgs.append({"reduce": True, "segments": 2, "nprocs": 2, "fresh_all": False})
     return cfgs
 
 
 def gen_cases(ctx, mp_ok):
     r = ctx.rng
     targets = fixed_targets()
-    n_rand = ctx.n(16, 150)
+    n_rand = ctx.n(16, 120)
     targets += [random_target(r) for _ in range(n_rand)]
     cases = []
     for ti, tgt in enumerate(targets):
@@ -292,9 +296,16 @@ def gen_cases(ctx, mp_ok):
             radius = float(round(ps * r.choice([0.7, 1.3, 2.2, 4.0]) if r.random() < 0.8 else r.choice([3.0e5, 1.0e6, 1.6e6, 2.5e6])))
         radius = max(radius, 1000.0)
         n = r.randint(20, 120) if ctx.tier == "quick" else r.randint(20, 400)
+        mp_case = (ti % 5 == 0) if ctx.thorough else ti in (0, 6, 12, 19)      # cases also run with nprocs=2
+        if mp_case:
+            n = min(n, 60)
         malformed = (ti % 7 == 3)
         slon, slat = make_source_points(r, tgt, radius, n, malformed)
-        if force:
+        if force and force.get("only"):
+            far = [(-150.0, -40.0), (-140.0, -50.0), (-160.0, -30.0), (100.0, -60.0), (-120.0, -20.0), (-130.0, -45.0)]
+            slon, slat = [p[0] for p in force["points"] + far], [p[1] for p in force["points"] + far]
+            n = len(slon)
+        elif force:
             for j, (a, b) in enumerate(force["points"]):
                 slon[j], slat[j] = a, b
         shape = [n]
@@ -311,7 +322,7 @@ def gen_cases(ctx, mp_ok):
         k = r.choice([2, 3, 4, 5])
         rows = t_out["h"] if t_out["kind"] == "area" else shape[0]
         nsrc = n if s_out["kind"] == "swath" else tgt["w"] * tgt["h"]
-        small = (ti % 4 == 0) and ctx.thorough
+        small = mp_case
         case = {"id": len(cases), "source": encode_geo(s_out), "target": encode_geo(t_out), "radius": radius, "k": k,
                 "sigma": radius / 2.0, "datasets": make_datasets(r, nsrc, ti), "configs": configs_for(ctx, rows, mp_ok, small),
                 "tag": tgt["tag"], "mode": mode, "malformed": malformed}
@@ -492,6 +503,9 @@ def check_case(ctx, case, obs, report):
                         report("C03.%s.result" % comp, "resample %s (%s) on dataset %d differs from %s%s" % (
                             typ, name, di, "the plain call" if is_ref else cfg_name(rcfg), describe_diff(got, want)),
                             {"config": cfg, "type": typ, "dataset": di})
+        if run.get("info_unchanged_by_sampling") is False:
+            report("C03.two_step.info_mutated", "get_sample_from_neighbour_info(%s) modified the neighbour info arrays it was given" % name,
+                   {"config": cfg})
         # -- two-step: info computed once and applied to every dataset, against fresh calls of the same configuration
         #    (or, where no fresh call was made for that dataset, of the reference configuration)
         for di, d in enumerate(run["two_step"]):
@@ -740,36 +754,46 @@ def analyse(ctx, cases, obs_list):
     res = ctx.coq_eval_many([(n, t) for n, t, _ in files] + [(n, t) for n, t, _ in sfiles])
 
     from .common import evals
-    variant_votes = {"fixed": 0, "legacy": 0, "neither": 0}
-    reason_of = {}          # case index -> (variant, winding/mode code, [codes])
-    mask_bad = []
+    import re as _re
+    okf, okl, rs_f, rs_l = {}, {}, {}, {}
     for name, _, cis in files:
         out, ok = res[name]
         if not ok:
             ctx.broken.append(("correspondence:reduction_mask", "model evaluation failed: " + out[-400:]))
             continue
         ev = evals(out)
-        nums = [[int(x) for x in __import__("re").findall(r"-?\d+", __import__("re").sub(r"%[a-zA-Z]+", "", e))] for e in ev]
+        nums = [[int(x) for x in _re.findall(r"-?\d+", _re.sub(r"%[a-zA-Z]+", "", e))] for e in ev[:2]]
         bad_fixed, bad_legacy = set(nums[0]), set(nums[1])
-        rs = {True: parse_reasons(ev[2]), False: parse_reasons(ev[3])}
+        pf, pl = parse_reasons(ev[2]), parse_reasons(ev[3])
         for pos, ci in enumerate(cis):
-            if pos not in bad_fixed:
-                variant_votes["fixed"] += 1
-                reason_of[ci] = ("fixed",) + rs[True][pos]
-            elif pos not in bad_legacy:
-                variant_votes["legacy"] += 1
-                reason_of[ci] = ("legacy",) + rs[False][pos]
-            else:
-                variant_votes["neither"] += 1
-                mask_bad.append(ci)
+            okf[ci], okl[ci] = pos not in bad_fixed, pos not in bad_legacy
+            rs_f[ci], rs_l[ci] = pf[pos], pl[pos]
+    # the tree is ONE variant of the function: the snapshot's, if that skeleton reproduces every mask, else the repaired one
+    variant_votes = {"fixed": 0, "legacy": 0, "neither": 0}
+    reason_of = {}          # case index -> (variant, winding/mode code, [codes])
+    mask_bad = []
+    if okl and all(okl.values()):
+        tree_variant = "legacy"
+    elif okf and all(okf.values()):
+        tree_variant = "fixed"
+    else:
+        tree_variant = "legacy" if sum(okl.values()) >= sum(okf.values()) else "fixed"
+    for ci in okl:
+        good = okl[ci] if tree_variant == "legacy" else okf[ci]
+        if good:
+            variant_votes[tree_variant] += 1
+            reason_of[ci] = (tree_variant,) + (rs_l[ci] if tree_variant == "legacy" else rs_f[ci])
+        else:
+            variant_votes["neither"] += 1
+            mask_bad.append(ci)
     ctx.count("mask_cases_matching_repaired_skeleton", variant_votes["fixed"])
     ctx.count("mask_cases_matching_snapshot_skeleton", variant_votes["legacy"])
     # a case on which both skeletons agree is counted for 'fixed'; the tree is 'legacy' only if no case needs 'fixed'
     if mask_bad:
         c0 = cases[mask_bad[0]]
         ctx.broken.append(("correspondence:reduction_mask",
-                           "data_reduce mask differs from both skeleton models on %d of %d cases, e.g. case %d (%s, target %s)" % (
-                               len(mask_bad), len(midx), mask_bad[0], c0["tag"], str(c0["target"] if c0["mode"] == "swath_to_area" else c0["source"])[:160])))
+                           "data_reduce mask differs from the skeleton model (%s variant; the other variant fits no better) on %d of %d cases, e.g. case %d (%s, target %s)" % (
+                               tree_variant, len(mask_bad), len(midx), mask_bad[0], c0["tag"], str(c0["target"] if c0["mode"] == "swath_to_area" else c0["source"])[:160])))
     nseg_bad = 0
     for name, _, ch in sfiles:
         out, ok = res[name]
@@ -853,8 +877,8 @@ def run(ctx):
                 "(x nprocs 2 in the thorough tier) x nn/gauss/custom(with_uncert) x 2 datasets (int / multi-channel / masked). "
                 "One evaluation = one configuration of one case; non-trivial = the plain call finds at least one neighbour and the "
                 "configuration differs from the plain call; distinct = distinct (geometry, radius, k, configuration)")
-    mp_ok = mp_available(ctx) if ctx.thorough else False
-    if ctx.thorough and not mp_ok:
+    mp_ok = mp_available(ctx)
+    if not mp_ok:
         ctx.notes.append("multiprocessing unavailable in this sandbox run: nprocs=2 configurations skipped")
     cases = gen_cases(ctx, mp_ok)
     obs_list = run_impl_sharded(ctx, cases, per=ctx.n(6, 5), workers=8)
